@@ -10,9 +10,13 @@ from geneticengine.grammar.metahandlers.vars import VarRange
 
 def make_grammar(feature_names: list[str], classes: list[Any]) -> tuple[list[type], type]:
 
+    # the labels as the data set has them (np.unique(...).tolist() gives ints for integer labels): the field is declared
+    # with their own type, so that a program holds what its grammar says
+    label_type: Any = type(classes[0]) if classes and all(type(c) is type(classes[0]) for c in classes) else str
+
     @dataclass
     class Klass:
-        value: Annotated[str, VarRange(classes)]
+        value: Annotated[label_type, VarRange(classes)]
 
         def to_numpy(self) -> str:
             return f"{self.value}"
